@@ -388,7 +388,7 @@ func run(c *runner.Ctx) {
 
 	// (2) clause-kind sequences
 	c.Space("extractor-sequences")
-	kinds := []byte{'Z', 'E', 'D', 'U'}
+	kinds := []byte{'Z', 'E', 'D', 'U', 'M'} // M (round 14): the rule-writing error of a malformed to / oto rule, as the library words it
 	maxLen := 5
 	if c.Thorough() {
 		maxLen = 7
@@ -487,6 +487,7 @@ func runSeq(c *runner.Ctx, seq []byte, groups int) {
 	}
 	var fields []reflect.StructField
 	var wantExplain []string
+	var malformed []int // fields that hold a value, so that their (malformed) size rule is looked at
 	strT := reflect.TypeOf("")
 	for i, k := range seq {
 		tag := ""
@@ -502,6 +503,9 @@ func runSeq(c *runner.Ctx, seq []byte, groups int) {
 			wantExplain = append(wantExplain, "it is required")
 		case 'U':
 			tag = fmt.Sprintf("zz%d", i)
+		case 'M':
+			tag = []string{"to=5", "oto=1-10", "oto=7"}[i%3]
+			malformed = append(malformed, i)
 		}
 		fields = append(fields, reflect.StructField{Name: fmt.Sprintf("F%d", i), Type: strT, Tag: reflect.StructTag(`valid:` + strconv.Quote(tag))})
 	}
@@ -521,6 +525,9 @@ func runSeq(c *runner.Ctx, seq []byte, groups int) {
 	p := reflect.New(st)
 	for _, fi := range unequal {
 		p.Elem().Field(fi).SetString("x")
+	}
+	for _, fi := range malformed {
+		p.Elem().Field(fi).SetString("abc")
 	}
 	var err error
 	pan, msg, site := runner.Guard(func() { err = valid.Struct(p.Interface()) })
@@ -558,7 +565,7 @@ func runSeq(c *runner.Ctx, seq []byte, groups int) {
 	sig := "sequence"
 	prev := byte(0)
 	for _, k := range []byte(desc) {
-		lab := map[byte]byte{'Z': 'z', 'E': 'e', 'D': 'e', 'G': 'e', 'U': 'u'}[k]
+		lab := map[byte]byte{'Z': 'z', 'E': 'e', 'D': 'e', 'G': 'e', 'U': 'u', 'M': 'u'}[k]
 		if prev != 0 && prev != lab {
 			sig = fmt.Sprintf("sequence/%c-then-%c", prev, lab)
 			break
